@@ -45,6 +45,19 @@ MODEL
             ops_table.symbol_denotes_its_operator (util.ops maps each symbol to the operator the grammar says).
       (vi)  column_filter.bare_atom_or_step[op=..]    shape "mixed" (a list of groups that also holds bare atoms; outside the grammar,
                                                       reachable through read_row_group_file(row_filter=[...]) only): out' == out OR sat(a)
+  CONTAINER TYPES.  The grammar says a condition is a 3-SEQUENCE (column, op, value) and a group a sequence of conditions; it
+  does not say which Python container: tuples and lists are both in use (the project's tests and JSON / YAML loaded filters
+  write lists).  `isinstance(condition, tuple)` is a FREE Boolean per condition object (`list` its negation, `(list, tuple)` /
+  Sequence true, str / dict / ndarray .. false), likewise per AND group; the outer `filters` is a list; `isinstance(cond[0],
+  str)` is true and `isinstance(group[0], str)` false.  A counter-model says how the conditions the path asked about are
+  written (`written_as`).  A flat-list test on the container type therefore takes BOTH outcomes: the unwrapped flat list is
+  then iterated as if it were the list of OR groups and column_filter.flat_is_and[..] is refuted (seed C13-m10).
+  HELPERS.  A call from a function under contract to a function DEFINED IN api.py (module-level, or a method of ParquetFile
+  that is not one of the recorded calls _columns_from_filters / to_pandas / _column_filter / pre_allocate /
+  read_row_group_file / open / _get_index; filter_row_groups stays the abstract `kept row groups`) is EXECUTED from its real
+  source on a fork of the path (RFEngine.inline_helper); a boolean array handed to such a helper inside a loop counts as
+  assigned by the loop body (in-place `acc &= ..`).  A helper that cannot be executed (Unsupported inside) is rolled back and
+  stays an opaque call; a boolean array of the model flowing into an opaque call is `out_of_reach` (never silently unchanged).
   THE INDUCTION from the fold steps to  result[r] == OR_g AND_{a in g} sat(a)(r)  IS ARGUED, NOT MECHANISED: (iii) gives
   E_g == AND_{a in g} sat(a)(r0) by induction over the atoms of g, (i)+(ii) give result == OR_g E_g by induction over the
   groups, and r0 is arbitrary.  Inside the run the first induction is used as a cut: after the loop over the atoms of g the
@@ -131,6 +144,8 @@ ASSUMED = [
     "the frame handed to _column_filter holds exactly the columns _columns_from_filters returns (call-site obligations of "
     "to_pandas / count) and len(df) rows; `filters` is a non-empty flat list of atoms or a non-empty list of non-empty groups "
     "(mixed lists and empty groups raise in filter_row_groups / _column_filter: outside the grammar)",
+    "a condition is a 3-sequence written as a tuple or as a list, an AND group a list or a tuple of conditions (both free per "
+    "object); the outer `filters` is a list; no other container types (numpy rows, namedtuples count as tuples) are modelled",
     "INDUCTION ARGUED, NOT MECHANISED: from the fold steps (start value + one arbitrary iteration from a havoc'd state) to "
     "result[r] == OR_g AND_a sat(a)(r); inside the run AND_G(g) replaces the group accumulator after its loop only when the "
     "AND-fold steps of that run were proved",
